@@ -563,3 +563,4 @@ Proof.
   intros Hwf. destruct (session_lemma max file s Hwf) as [f' [seen [inp [Hr [_ Hf]]]]].
   exists f', seen, inp. split; [exact Hr|]. destruct (ss_submit s && nonemptyb inp); split; intros; congruence.
 Qed.
+
